@@ -68,7 +68,12 @@ def main(argv=None):
         if args.replay:
             with open(args.replay) as f:
                 doc = json.load(f)
-            mod.replay(ctx, doc['case'])
+            if doc['case'].get('kind') == 'whole-run':
+                sigs = whole_run_signatures(core.Ctx(prop, doc['case'].get('tier', tier), doc['case'].get('seed', seed)), mod)
+                if doc['case']['signature'] in sigs:
+                    ctx.violation(doc['case']['signature'], doc['case'], doc.get('message', ''))
+            else:
+                mod.replay(ctx, doc['case'])
         else:
             mod.run(ctx)
         return finish(ctx, mod, replaying=bool(args.replay),
@@ -109,6 +114,36 @@ def replay_in_child(ctx, mod, v):
     return os.WIFEXITED(status) and os.WEXITSTATUS(status) == 0
 
 
+def whole_run_signatures(ctx, mod):
+    '''Runs the complete exploration once more in a forked child; -> set of violation signatures it reported.'''
+    from mc import core
+    r, w = os.pipe()
+    pid = os.fork()
+    if pid == 0:
+        try:
+            os.close(r)
+            c3 = core.Ctx(ctx.prop, ctx.tier, ctx.seed)
+            c3.budget_s = getattr(ctx, 'budget_s', None)
+            try:
+                mod.run(c3)
+            except BaseException:
+                if os.environ.get('VERIF_DEBUG'):
+                    traceback.print_exc()
+            data = json.dumps(sorted(set(x['sig'] for x in c3.violations))).encode()
+            with os.fdopen(w, 'wb') as f:
+                f.write(data)
+        finally:
+            os._exit(0)
+    os.close(w)
+    with os.fdopen(r, 'rb') as f:
+        data = f.read()
+    os.waitpid(pid, 0)
+    try:
+        return set(json.loads(data.decode() or '[]'))
+    except ValueError:
+        return set()
+
+
 def finish(ctx, mod, replaying=False, no_evidence=False):
     from mc import core
     known = core.load_known(ctx.prop)
@@ -124,6 +159,7 @@ def finish(ctx, mod, replaying=False, no_evidence=False):
 
     # every alarm must reproduce from scratch with the same signature
     confirmed = []
+    unreproduced = []
     if not replaying:
         for v in new:
             # (retried: code under test may depend on object addresses, e.g. iteration over a set of instances)
@@ -134,10 +170,25 @@ def finish(ctx, mod, replaying=False, no_evidence=False):
                     reproduced = True
                     break
             if not reproduced:
-                sys.stderr.write('HARNESS ERROR: violation %s did not reproduce on '
-                                 'replay: %s\n' % (v['sig'], json.dumps(v['case'], default=repr)[:2000]))
-                return 2
-            confirmed.append(v)
+                unreproduced.append(v)
+            else:
+                confirmed.append(v)
+        if unreproduced:
+            # The case alone does not show it.  The outcome may depend on what the process did before (state the code
+            # under test keeps between calls); then a second complete exploration from a fresh process shows the same
+            # signature again, and the violation is reported with a replay document that asks for the complete run.
+            again = whole_run_signatures(ctx, mod)
+            for v in unreproduced:
+                if v['sig'] in again:
+                    v = dict(v, case=dict(kind='whole-run', tier=ctx.tier, seed=ctx.seed, signature=v['sig'], first_seen_in=v['case']),
+                             message=v['message'] + '  [depends on the calls made earlier in the process: reproduced by a second '
+                             'complete exploration, not by the case alone]')
+                    if not any(c['sig'] == v['sig'] and c['case'].get('kind') == 'whole-run' for c in confirmed):
+                        confirmed.append(v)
+                else:
+                    sys.stderr.write('HARNESS ERROR: violation %s did not reproduce, neither alone nor in a second complete '
+                                     'run: %s\n' % (v['sig'], json.dumps(v['case'], default=repr)[:2000]))
+                    return 2
     else:
         confirmed = new
 
